@@ -96,17 +96,30 @@ func genC15Plan(r *sim.Rng, tier string) RelayPlan {
 	}
 	// main loop: ~1 unit batch per 300..1200 ms of simulated time, stalls and drips interleaved
 	rounds := 25 + r.Intn(20)
+	// slow variant: lal's default queues (1024 entries) and a stream of one message every 1.5 s - a stalled player's
+	// queue never fills, so only the write timeout can disconnect it
+	slow := !withRtsp && r.Bool(0.15)
+	if slow {
+		pl.Conf.QueueSize = 0
+		rounds = 14 + r.Intn(5)
+	}
 	stallAt := map[int]int{}
 	for c := range pl.Cons {
 		if stall[c] {
 			stallAt[c] = r.Intn(rounds / 2)
+			if slow {
+				stallAt[c] = 1 + r.Intn(2)
+			}
 		}
 	}
 	for round := 0; round < rounds; round++ {
 		for c := range pl.Cons {
 			if stall[c] && stallAt[c] == round {
 				pl.Ops = append(pl.Ops, RelayOp{Kind: "stall", Cons: c, N: []int{0, 1, 7, 100, 5000}[r.Intn(5)]})
-			} else if stall[c] && round > stallAt[c] {
+				if slow {
+					pl.Ops[len(pl.Ops)-1].N = 0
+				}
+			} else if stall[c] && round > stallAt[c] && !slow {
 				switch r.Intn(12) {
 				case 0:
 					pl.Ops = append(pl.Ops, RelayOp{Kind: "drip", Cons: c, N: 1 + r.Intn(3000)})
@@ -119,9 +132,15 @@ func genC15Plan(r *sim.Rng, tier string) RelayPlan {
 		}
 		for s := 0; s < nStreams; s++ {
 			pl.Ops = append(pl.Ops, RelayOp{Kind: "send", Pub: s, N: 1 + r.Intn(3)})
+			if slow {
+				pl.Ops[len(pl.Ops)-1].N = 1
+			}
 		}
 		pl.Ops = append(pl.Ops, RelayOp{Kind: "settle"})
 		pl.Ops = append(pl.Ops, RelayOp{Kind: "advance", Ms: 300 + r.Intn(900)})
+		if slow {
+			pl.Ops[len(pl.Ops)-1].Ms = 1500
+		}
 	}
 	// RTSP command connections have no write timeout: a stalled interleaved player is removed by the liveness sweep
 	// (every 120 s), so the stream keeps flowing for a few more minutes of simulated time when one is stalled
@@ -308,6 +327,10 @@ func CheckC15(k *sim.Kernel, rr *RelayRun) {
 				}
 				k.Probe("c15_rtsp_sweep_after_pub_left")
 			}
+		} else if c.ResumedAtMs == 0 && !c.ClosedAtEnd && c.BlockedForMsAtEnd > 12500 {
+			// RTMP / HTTP-FLV / HTTP-TS players have a 10 s write timeout: a write that has been waiting for the peer for
+			// longer than that (plus slack) means the timeout is not in force for this session
+			k.Violate("C15.stalled-not-disconnected", "%s stopped reading at %d ms; when the run ended lal's write to it had been blocked for %d ms (write timeout 10 s) and the session was still open", name, c.StallAtMs, c.BlockedForMsAtEnd)
 		} else if c.ResumedAtMs == 0 && pubActiveAfter-c.StallAtMs > 14000 && !c.ClosedByLal() {
 			var conn *sim.Conn
 			if c.Rtmp != nil {
@@ -406,6 +429,9 @@ func init() {
 					conn = c.Rtsp.Conn
 				}
 				c.BlockedAtEnd = conn != nil && (conn.WriterBlocked() || conn.Window() == 0)
+				if conn != nil {
+					c.BlockedForMsAtEnd = conn.BlockedForMs()
+				}
 			}
 			for i, c := range rr.Cons {
 				if c.Stalled && !c.ClosedByLal() {
